@@ -38,7 +38,7 @@ SPECTRUM_REASONS = ('NO_SPECTRUM', 'NOT_ENOUGH_RESERVED_SPECTRUM')
 
 
 def plan(tier, seed):
-    n = 40 if tier == 'quick' else 2000
+    n = 84 if tier == 'quick' else 2000
     return [{'idx': i, 'kind': ['plain', 'sat', 'plain', 'sat', 'p2p', 'multiband'][i % 6]} for i in range(n)]
 
 
